@@ -194,6 +194,9 @@ func (fr *frame) applyCall(cc *ssa.CallCommon, st *bstate, site ssa.Instruction,
 	for _, a := range args {
 		f.publish(a)
 	}
+	for _, a := range cc.Args {
+		fr.guardedRefHandedOn(a, st, "passed to "+shortCallee(valueLabel(cc.Value)), pos)
+	}
 	// sweep kind "constfmt": the format of fmt.Errorf / Sprintf / Fprintf is a constant, so that
 	// data (a peer's or handler's message) is only ever an operand of a verb, never the format
 	if f.sweep["constfmt"] && !f.dry {
@@ -2462,4 +2465,90 @@ func (fr *frame) outerBeforeAsserts(cc *ssa.CallCommon, st *bstate, site ssa.Ins
 			f.oblige(st, fmt.Sprintf("%s#before:%s#%d:%s", fnShortName(a.fn), ba.Callee, ba.Ordinal, clauseLabel(ba.C)), "assert", ba.C.Tags, v, ba.C.Src, ba.C.Line)
 		}
 	}
+}
+
+// Guarded map references.  A load of the reference of a map kept in a guarded field is recorded
+// (with the address of its lock); when that reference is later handed on - passed to a call, stored
+// in a variable, captured by a closure, returned - the lock must still be held at that point,
+// otherwise whoever uses it afterwards does so outside the critical section.
+type guardedRef struct {
+	lockAddr    string
+	tname, fname string
+	tags        []string
+}
+
+func (fr *frame) checkGuardedMapEscape(x *ssa.UnOp, st *bstate) {
+	f := fr.f
+	fa, ok := x.X.(*ssa.FieldAddr)
+	if !ok {
+		return
+	}
+	if _, isMap := x.Type().Underlying().(*types.Map); !isMap {
+		return
+	}
+	T := fa.X.Type().Underlying().(*types.Pointer).Elem()
+	ts := f.e.typeSpecOf(T)
+	if ts == nil || len(ts.Guarded) == 0 {
+		return
+	}
+	stt := T.Underlying().(*types.Struct)
+	fname := stt.Field(fa.Field).Name()
+	base := fr.val(fa.X)
+	for _, g := range ts.Guarded {
+		if !f.e.active(g.Tags) || len(g.Tags) == 0 && f.e.curProp != "" {
+			continue
+		}
+		hit := false
+		for _, gf := range g.Fields {
+			if gf == fname {
+				hit = true
+			}
+		}
+		li := -1
+		for i := 0; i < stt.NumFields(); i++ {
+			if stt.Field(i).Name() == g.Lock {
+				li = i
+			}
+		}
+		if !hit || li < 0 {
+			continue
+		}
+		root := fr.fn
+		for root.Parent() != nil {
+			root = root.Parent()
+		}
+		for _, n := range append(append([]string{}, ts.Ctors...), ts.Inits...) {
+			if root.Name() == n || strings.HasSuffix(n, "*") && strings.HasPrefix(root.Name(), strings.TrimSuffix(n, "*")) {
+				return
+			}
+		}
+		lockAddr := f.faddr(base.Tm, T, li)
+		if _, isPtr := stt.Field(li).Type().Underlying().(*types.Pointer); isPtr {
+			lockAddr = app("select", f.hs.read(st.heap, f.fieldKey(base.Tm, T, li)), base.Tm)
+		}
+		if fr.guardedRefs == nil {
+			fr.guardedRefs = map[ssa.Value]guardedRef{}
+		}
+		fr.guardedRefs[x] = guardedRef{lockAddr: lockAddr, tname: ts.Name, fname: fname, tags: g.Tags}
+		return
+	}
+}
+
+// guardedRefHandedOn: v is being passed on / stored / returned at state st.
+func (fr *frame) guardedRefHandedOn(v ssa.Value, st *bstate, how string, pos token.Pos) {
+	f := fr.f
+	if f.dry || fr.guardedRefs == nil {
+		return
+	}
+	gr, ok := fr.guardedRefs[v]
+	if !ok {
+		return
+	}
+	goal := app(">=", f.lockHeld(st.heap, gr.lockAddr), "1")
+	if strings.HasPrefix(how, "stored") {
+		goal = "false" // a variable outlives the critical section it is assigned in
+	}
+	f.oblige(st, fmt.Sprintf("%s#guarded-map-handed-on-only-under-its-lock:%s.%s", fnShortName(fr.fn), gr.tname, gr.fname), "guarded", gr.tags,
+		goal,
+		"the reference of the guarded map "+gr.tname+"."+gr.fname+" is "+how+" while its lock is not held: later uses happen outside the critical section", posStr(f.e.fset, pos))
 }
